@@ -256,6 +256,8 @@ class Gen:
             opts.append(JacobianDeterminant)
         if U.is_facet and U.tdim > 1:
             opts.append(FacetArea)
+        if getattr(self, "geo_scalar_classes", None):
+            opts = list(self.geo_scalar_classes)  # e.g. non-affine cells: only what the curved world models
         cls = rng.choice(opts)
         self.note("leaf:" + cls.__name__)
         q = cls(U.mesh)
